@@ -394,6 +394,10 @@ fn big_dims(c: &BigCase) -> (usize, usize, usize) {
     if c.stride % 16 == 5 {
         return (if c.wide { 35 } else { 17 }, [65_535usize, 65_536, 65_537, 70_001][c.n_sel as usize % 4], 12 + c.rows_sel as usize % 30);
     }
+    // one case in sixteen: a long table of two samples that is constant except for two rows a given distance apart
+    if c.stride % 16 == 9 {
+        return (if c.wide { 35 } else { 17 }, 2, 70_000 + c.rows_sel as usize % 2000);
+    }
     let rows = ROWS[crate::gen::idx(c.rows_sel, ROWS.len())];
     // the largest tables only with few samples (cost)
     let n = if rows >= 8192 { [8usize, 9, 15, 16, 17][c.n_sel as usize % 5] } else if c.n_sel % 2 == 0 { BOUNDARY_SAMPLES[crate::gen::idx(c.n_sel, BOUNDARY_SAMPLES.len())] } else { 2 + crate::gen::idx(c.n_sel, 129) };
@@ -402,12 +406,24 @@ fn big_dims(c: &BigCase) -> (usize, usize, usize) {
 
 fn check_big(c: &BigCase, ctx: &Ctx) -> Outcome {
     let (k, n, rows) = big_dims(c);
-    let t = big_symbol_table(k, n, rows, c.salt, c.pgap, c.pamb, c.stride);
+    let mut t = big_symbol_table(k, n, rows, c.salt, c.pgap, c.pamb, c.stride);
+    let sparse = c.stride % 16 == 9;
+    if sparse {
+        // rows p and p + d share a symbol (R) that occurs nowhere in between; d on and next to 2^8 and 2^16
+        let d = [255usize, 256, 65_534, 65_535, 65_535, 65_536][c.n_sel as usize % 6];
+        let p = 100 + (c.salt % 3000) as usize;
+        for (i, r) in t.rows.values_mut().enumerate() {
+            *r = if i == p { vec![b'A', b'R'] } else if i == p + d { vec![b'G', b'R'] } else { vec![b'A', b'A'] };
+        }
+    }
     // a quarter of the cases request no filtering at all, so that exactly `rows` columns are written
     // (output writers that work in blocks meet the block sizes exactly)
     let mut c = c.clone();
     if c.salt % 4 == 0 {
         c.flags = Flags { kind: FilterKind::NoFilter, ambig_as_missing: false, ambig_mask: c.flags.ambig_mask, no_gap_only: false, freq: Freq::Zero };
+    }
+    if sparse {
+        c.flags = Flags { kind: if c.salt % 4 == 1 { FilterKind::NoAmbigOrConst } else { FilterKind::NoConst }, ambig_as_missing: false, ambig_mask: false, no_gap_only: false, freq: Freq::Zero };
     }
     let c = &c;
     let sp = spec(&c.flags, n);
@@ -441,6 +457,7 @@ fn check_big(c: &BigCase, ctx: &Ctx) -> Outcome {
             if rows % 1024 == 0 || rows % 256 == 0 { cl.push("rows_on_block_size"); }
             if c.via_cli { cl.push("cli"); }
             if n >= 65_535 { cl.push(">=65535_samples"); }
+            if sparse { cl.push("two_variable_rows_a_set_distance_apart_in_a_constant_table"); }
             pass((removed > 0 && kept > 0) || masked > 0, key_of(&(k, n, rows, c.salt, c.pgap, c.pamb, &c.flags, c.via_cli)), cl)
         }
     }
